@@ -5,6 +5,7 @@ import Mdsort.Proofs.PartiesWitness
 import Mdsort.Proofs.PartiesCopyWitness
 import Mdsort.Proofs.PartiesClient
 import Mdsort.Proofs.PartiesReaddirWitness
+import Mdsort.Proofs.PartiesCopyLoser
 
 /-!
 # C17 - concurrent runs on the same maildirs neither lose nor duplicate messages
@@ -40,6 +41,16 @@ theorem C17_loser_reports_error (env : PEnv) (mh : Match) (st : ExecSt) (orc : N
     (runOracle orc (execOne env mh st) 0 []).1.2 = true :=
   Proofs.lost_race_is_error env mh st orc hty hlost
 
+/-- ... for the copying actions too: a move / flag / flags (also across devices: `EXDEV`, copy, `unlinkat` of the
+source) / label / add-header action all of whose renames fail and all of whose `unlinkat` of the message's own name
+fail (the source is gone) returns error = true. -/
+theorem C17_copy_loser_reports_error (env : PEnv) (mh : Match) (st : ExecSt) (orc : Nat → Call → Res)
+    (hty : mh.ty = .move ∨ mh.ty = .flag ∨ mh.ty = .flags ∨ mh.ty = .label ∨ mh.ty = .addHeader)
+    (hren : ∀ i d1 n1 d2 n2, ∃ e, orc i (.renameat d1 n1 d2 n2) = .err e)
+    (hunl : ∀ i d, ∃ e, orc i (.unlinkat d st.ms.name) = .err e) :
+    (runOracle orc (execOne env mh st) 0 []).1.2 = true :=
+  Proofs.lost_race_is_error_all env mh st orc hty hren hunl
+
 /-! ## several parties on one file system, all schedules -/
 
 /-- Single winner.  For every entry `x` (directory, name) - in particular the source name of a
@@ -69,6 +80,25 @@ theorem C17_loser_in_schedule_reports_error (s0 : Shared) (hf : Proofs.Parties.F
       ps.trace[i]? = some (Call.renameat d1 n1 d2 n2, r) → r = Res.err "ENOENT")
     (e : Bool) (hfin : ps.prog = .ret e) : e = true :=
   Proofs.Parties.loser_reports_error s0 hf sched a p0 ps env mh rest st h0 hp hty hs hlost e hfin
+
+/-- The same for every delivering first action, the copying ones included: all renames of the party failed and all
+its `unlinkat` of the message's name failed => it finishes with error = true. -/
+theorem C17_copy_loser_in_schedule_reports_error (s0 : Shared) (hf : Proofs.Parties.Fresh s0) (sched : List Nat) (a : Nat)
+    (p0 ps : PState) (env : PEnv) (mh : Match) (rest : MatchList) (st : ExecSt)
+    (h0 : s0.parties[a]? = some p0) (hp : p0.prog = errOf (matchesExec env (mh :: rest) st))
+    (hty : mh.ty = .move ∨ mh.ty = .flag ∨ mh.ty = .flags ∨ mh.ty = .label ∨ mh.ty = .addHeader)
+    (hs : (runSched s0 sched).parties[a]? = some ps)
+    (hren : ∀ (i : Nat) (d1 : Handle) (n1 : Bytes) (d2 : Handle) (n2 : Bytes) (r : Res),
+      ps.trace[i]? = some (Call.renameat d1 n1 d2 n2, r) → ∃ e, r = Res.err e)
+    (hunl : ∀ (i : Nat) (d : Handle) (r : Res), ps.trace[i]? = some (Call.unlinkat d st.ms.name, r) → ∃ e, r = Res.err e)
+    (e : Bool) (hfin : ps.prog = .ret e) : e = true :=
+  Proofs.Parties.loser_reports_error_all s0 hf sched a p0 ps env mh rest st h0 hp hty hs hren hunl e hfin
+
+open Proofs.Parties.W in
+/-- Non-vacuity: in the round-robin run of `label` against `move` (below), the `label` party is such a loser (its
+`unlinkat` of `a` failed, it has no rename) and finished with error = true; the mover is not. -/
+example : ((runSched c0 schedRR).parties.map fun ps => (lostTrace (ofString "a") ps.trace, ps.result)) =
+    [(true, some true), (false, some false)] := rr_loser
 
 /-- `C17_never_touches_foreign` on schedules: whatever the other parties and the client do in
 between, every `unlinkat` argument and `renameat` source of an mdsort party is the name of the
